@@ -783,3 +783,11 @@ silent('s-rx5-verbose-module-level', ['C15', 'C01'], 'the declaration pattern is
        (UTILS, "\n\nclass Version(NamedTuple):", _VERBOSE_DECL),
        (UTILS, '        possible_encoding = re.match(\n            br"(?:[ \\t\\f]*(?:#[^\\r\\n]*)?(?:\\r\\n|\\r|\\n))??"\n            br"[ \\t\\f]*#[^\\r\\n]*?coding[:=][ \\t]*([-\\w.]+)",\n            source\n        )\n',
         '        possible_encoding = _ENCODING_DECLARATION.match(source)\n'))
+
+# round 13: in-place operator on an alias of module-level state, inside a helper of a memo function (rt13-C18)
+fire('eff1-inplace-on-global-alias', ['C18', 'C09', 'C10'], ['EFF-1'], 'the f-string prefix list becomes a module constant that a helper of the memo function extends in place through a local alias',
+     (TOK, "def _all_string_prefixes(*, include_fstring=False, only_fstring=False):", "_F_PREFIXES = ['f', 'fr']\n_EXTRA_PREFIXES = ['t', 'tr']\n\n\ndef _all_string_prefixes(*, include_fstring=False, only_fstring=False):"),
+     (TOK, "        f = ['f', 'fr']\n", "        f = _F_PREFIXES\n        if only_fstring:\n            f += _EXTRA_PREFIXES\n"))
+silent('s-eff1-copy-of-global', ['C18', 'C09', 'C10'], 'the f-string prefix list becomes a module constant; the helper extends a copy of it',
+       (TOK, "def _all_string_prefixes(*, include_fstring=False, only_fstring=False):", "_F_PREFIXES = ['f', 'fr']\n_EXTRA_PREFIXES = []\n\n\ndef _all_string_prefixes(*, include_fstring=False, only_fstring=False):"),
+       (TOK, "        f = ['f', 'fr']\n", "        f = list(_F_PREFIXES)\n        f += _EXTRA_PREFIXES\n"))
